@@ -120,6 +120,13 @@ func wildGen(prop string) func(rng *verifsim.RNG, idx int, tier string) *Plan {
 		}
 		s.RDNSS = []RDNSSSpec{rd}
 		if prop == "C14" && rng.Bool(0.2) {
+			// one of the interface's own addresses is configured as a static
+			// server too (it may well be the one the wildcard picks): build after
+			// build the option is the pick followed by the configured servers
+			rd.Servers = []string{"::", "2001:db8:53::1", "2001:db8:a::2", "fd00:1::2", "fd00:1::1", "2001:db8:a::1", "fd00:3::211:22ff:fe33:4455", "2001:db8:0:1::1"}
+			s.RDNSS = []RDNSSSpec{rd}
+		}
+		if prop == "C14" && rng.Bool(0.2) {
 			// also a purely static stanza next to the wildcard one
 			s.RDNSS = append(s.RDNSS, RDNSSSpec{Servers: []string{"2001:db8:53::9", "2001:db8:53::3"}})
 		}
